@@ -253,7 +253,18 @@ def optimize_mapper(
     """
     # This is a crime, an abomination. But a somewhat effective one.
 
+    if inline_cache and not (drop_args and drop_kwargs):
+        # The inlined lookup is keyed on (type(expr), expr) only.
+        raise ValueError("inline_cache requires drop_args and drop_kwargs: "
+                         "the inlined cache key does not include extra arguments")
+
     def wrapper(cls):
+        from pymbolic.mapper import CachedMapper
+        if inline_rec and not inline_cache and issubclass(cls, CachedMapper):
+            # The inlined dispatch does not go through CachedMapper.__call__.
+            raise ValueError("inline_rec on a CachedMapper requires inline_cache: "
+                             "otherwise recursion bypasses the cache")
+
         try:
             # Introduced in Py3.9
             ast.unparse  # noqa: B018
